@@ -77,8 +77,19 @@ pub fn main(a: &vcommon::Args) {
     let mut out = Out::create(a.get(1));
     let origs = seqs(maxlen, 1);
     let obss = seqs(maxlen, 2);
+    // second family: the observed address starts with the SAME value as the original (same host seen from outside),
+    // its later components still differ
+    let same_first: Vec<Vec<(usize, u8)>> = obss
+        .iter()
+        .filter(|b| !b.is_empty())
+        .map(|b| {
+            let mut t = b.clone();
+            t[0].1 = 1;
+            t
+        })
+        .collect();
     for o in &origs {
-        for b in &obss {
+        for b in obss.iter().chain(same_first.iter().filter(|b| !o.is_empty() && o[0].0 == b[0].0)) {
             let (om, oa) = build(o, &peers);
             let (bm, ba) = build(b, &peers);
             match vcommon::guard(|| libp2p_swarm::_address_translation(&om, &bm)) {
